@@ -6,6 +6,10 @@ import TapkeeVerif.Model.Diffusion
 import TapkeeVerif.Proofs.MatBridge
 import TapkeeVerif.Proofs.Laplacian
 import TapkeeVerif.Proofs.LaplacianDiffusion
+import TapkeeVerif.Proofs.SpectralLocal
+import Mathlib.Tactic.NormNum
+import Mathlib.Tactic.FinCases
+import Mathlib.LinearAlgebra.Matrix.Notation
 /-!
 # C09 — Laplacian Eigenmaps and Diffusion Map solve their stated spectral problems
 
@@ -250,6 +254,78 @@ example : ∀ i, exV i (Fin.last 1) = 3 * exS i := by decide +kernel
 example : (3 : ℚ) ≠ 0 := by decide +kernel
 example : dmPost exV (fun _ => 1 / 2) 3 1 0 = (1 / 2) ^ 3 * (-7 / 2) / 3 := by decide +kernel
 
--- SPECTRAL THEOREMS (appended by the spectral owner)
+/-! ## Spectral part (eigensolver contract `GenEigSystem` as hypothesis; `Proofs/SpectralLocal.lean`) -/
+
+section Spectral
+open TapkeeVerif.SpectralLocal
+variable {K : Type} [Field K] [LinearOrder K] [IsStrictOrderedRing K]
+
+
+/-- **Laplacian Eigenmaps solves its generalised eigenproblem** (`generalized_eigendecomposition(SmallestEigenvalues)`
+    on `(L, D)`, skip = 1).  If `(V, lam)` is a full `D`-orthonormal eigensystem of the pencil `(L, D)` with ascending
+    eigenvalues (contract of `Eigen::GeneralizedSelfAdjointEigenSolver`) whose first eigenvector is constant
+    (`laplacian_mulVec_one`: `L 1 = 0`), then the returned columns `Y` = eigenvectors `1 … d` satisfy
+    `L y = lam D y`, `Yᵀ D Y = 1`, `Yᵀ D 1 = 0`, and they **minimise `tr(Zᵀ L Z)` among all `Z` with `Zᵀ D Z = 1`,
+    `Zᵀ D 1 = 0`** — the `d` smallest non-trivial generalised eigenvalues (`kyFan_min` in the `D`-inner product). -/
+theorem le_solution {n d : Nat} (L V : Matrix (Fin n) (Fin n) K) (dg lam : Fin n → K)
+    (h : GenEigSystem L (Matrix.diagonal dg) V lam) (hd : 1 + d ≤ n) (κ : K) (hκ : κ ≠ 0)
+    (hconst : ∀ i, V i ⟨0, by omega⟩ = κ) :
+    (∀ c, L.mulVec (fun i => cols V (shiftIdx 1 hd) i c)
+        = lam (shiftIdx 1 hd c) • (Matrix.diagonal dg).mulVec (fun i => cols V (shiftIdx 1 hd) i c)) ∧
+    (cols V (shiftIdx 1 hd))ᵀ * Matrix.diagonal dg * cols V (shiftIdx 1 hd) = 1 ∧
+    (∀ c, ∑ i, dg i * cols V (shiftIdx 1 hd) i c = 0) ∧
+    Matrix.trace ((cols V (shiftIdx 1 hd))ᵀ * L * cols V (shiftIdx 1 hd)) = ∑ c, lam (shiftIdx 1 hd c) ∧
+    ∀ Z : Matrix (Fin n) (Fin d) K, Zᵀ * Matrix.diagonal dg * Z = 1 → (∀ c, ∑ i, dg i * Z i c = 0) →
+      Matrix.trace ((cols V (shiftIdx 1 hd))ᵀ * L * cols V (shiftIdx 1 hd)) ≤ Matrix.trace (Zᵀ * L * Z) := by
+  have hinj := shiftIdx_injective (d := d) (n := n) 1 hd
+  have hrow0 : ∀ (Z : Matrix (Fin n) (Fin d) K) (c : Fin d),
+      (Vᵀ * Matrix.diagonal dg * Z) ⟨0, by omega⟩ c = κ * ∑ i, dg i * Z i c := by
+    intro Z c
+    rw [Matrix.mul_assoc, Matrix.mul_apply, Finset.mul_sum]
+    apply Finset.sum_congr rfl
+    intro i _
+    rw [Matrix.transpose_apply, hconst, Matrix.diagonal_mul]
+  refine ⟨fun c => eigen_equation_col h _, cols_orthonormal h _ hinj, ?_, cols_trace h _ hinj, ?_⟩
+  · intro c
+    have h0 := congrFun (congrFun h.orth ⟨0, by omega⟩) (shiftIdx 1 hd c)
+    have hne : (⟨0, by omega⟩ : Fin n) ≠ shiftIdx 1 hd c := by
+      intro hh
+      have := congrArg Fin.val hh
+      simp only [shiftIdx] at this
+      omega
+    rw [Matrix.one_apply, if_neg hne] at h0
+    have h1 : (Vᵀ * Matrix.diagonal dg * V) ⟨0, by omega⟩ (shiftIdx 1 hd c)
+        = κ * ∑ i, dg i * V i (shiftIdx 1 hd c) := by
+      rw [Matrix.mul_assoc, Matrix.mul_apply, Finset.mul_sum]
+      apply Finset.sum_congr rfl
+      intro i _
+      rw [Matrix.transpose_apply, hconst, Matrix.diagonal_mul]
+    rw [h1] at h0
+    rcases mul_eq_zero.mp h0 with h2 | h2
+    · exact absurd h2 hκ
+    · exact h2
+  · intro Z hZ hZ1
+    apply bottom_after_skip h 1 hd Z hZ
+    intro j hj c
+    have hj0 : j = ⟨0, by omega⟩ := Fin.ext (by show j.1 = 0; omega)
+    rw [hj0, hrow0 Z c, hZ1 c, mul_zero]
+
+/-- non-vacuity of `le_solution`: the 2-vertex graph `L = !![1,-1;-1,1]` with degrees `D = diag(2,2)` has the
+    `D`-orthonormal eigensystem `V = ½ !![1,1;1,-1]`, `lam = (0, 1)`, constant first eigenvector (`κ = ½`), `d = 1` -/
+example : GenEigSystem (!![1, -1; -1, 1] : Matrix (Fin 2) (Fin 2) ℚ) (Matrix.diagonal ![2, 2])
+      ((1 / 2 : ℚ) • !![1, 1; 1, -1]) ![0, 1]
+    ∧ (∀ i, ((1 / 2 : ℚ) • (!![1, 1; 1, -1] : Matrix (Fin 2) (Fin 2) ℚ)) i ⟨0, by omega⟩ = 1 / 2) := by
+  refine ⟨⟨?_, ?_, ?_⟩, ?_⟩
+  · ext i j
+    fin_cases i <;> fin_cases j <;> simp [Matrix.mul_apply, Fin.sum_univ_two] <;> norm_num
+  · ext i j
+    fin_cases i <;> fin_cases j <;> simp [Matrix.mul_apply, Fin.sum_univ_two] <;> norm_num
+  · intro a b hab
+    fin_cases a <;> fin_cases b <;> simp_all
+  · intro i
+    fin_cases i <;> simp
+
+end Spectral
+
 
 end TapkeeVerif.C09
